@@ -1,6 +1,7 @@
 SPECIFICATION GSpec
 CONSTANTS
   Mode = "sf"
+  Objs = {1}
   Keys = {1,2}
   D = 6
   Outcomes = {"ok","err","panic"}
